@@ -32,6 +32,14 @@ IterInfo(i, q) == [s |-> q[1], b |-> IF q[2] = 0 THEN 0 ELSE Layout(i).st[q[1]].
 PosOfBlock(i, nfile) == LET b == Layout(i).bl[nfile] IN <<b.s, b.nstream>>
 
 Copies(x, n) == [k \in 1..n |-> x]
+RECURSIVE IPow(_, _)
+IPow(b, e) == IF e = 0 THEN 1 ELSE b * IPow(b, e - 1)
+Digit(n, j, base) == (n \div IPow(base, j)) % base
+\* Stream shapes of the families: no Blocks / one empty Block / one Block of 5 bytes / an empty Block then one of 5 bytes
+StreamShape(d) == CASE d = 0 -> <<>>
+                    [] d = 1 -> <<Rec(BigOf(8), Zero)>>
+                    [] d = 2 -> <<Rec(BigOf(8), BigOf(5))>>
+                    [] d = 3 -> <<Rec(BigOf(8), Zero), Rec(BigOf(9), BigOf(5))>>
 
 Apply(st, o) ==
     LET reg == st.reg
@@ -60,6 +68,14 @@ Apply(st, o) ==
                 d == reg[o.k]
             IN  upd(o.k, Res("OK", "ok", [streams |-> d.streams \o Copies(s, o.n),
                                           acc |-> ChecksOp(d) \cup (IF o.n >= 2 /\ o.f.set THEN {o.f.check} ELSE {})]))
+      [] o.op = "streams" ->          \* o.m Streams cat'ed one by one; digit d of o.n in base o.j gives the shape of Stream d
+            LET one(d) == [streams |-> <<[EmptyStream EXCEPT !.recs = StreamShape(Digit(o.n, d - 1, o.j))]>>, acc |-> {}]
+            IN  upd(o.k, Res("OK", "ok", FoldLeft(LAMBDA a, d : DoCat(a, one(d)).idx, reg[o.k], [d \in 1..o.m |-> d])))
+      [] o.op = "groups" ->           \* o.m times 512 equal Records: uncompressed size 1 if bit g of o.n is set, else 0 (empty)
+            LET i == reg[o.k]
+                grp(g) == Copies(Rec(BigOf(8), BigOf(Digit(o.n, g - 1, 2))), 512)
+                all == FoldLeft(LAMBDA a, g : a \o grp(g), <<>>, [g \in 1..o.m |-> g])
+            IN  upd(o.k, Res("OK", "ok", WithLast(i, [LastStream(i) EXCEPT !.recs = @ \o all])))
       [] o.op = "dup" -> upd(o.j, DoDup(reg[o.k]))
       [] o.op = "encdec" ->
             LET r == DoEncDec(reg[o.k])
